@@ -65,6 +65,22 @@ let dispatch cmd =
       let db_req = read_recs () in let db_resp = read_recs () in
       jres (fun (m, d) -> "[" ^ jopt (fun (_, r) -> ji r.r_line) m ^ "," ^ jopt (fun (t, _) -> jmtype t) m ^ "," ^ ji d ^ "]")
         (fp_tcp md { db_req; db_resp } frag ty p)
+  | "uptime" ->
+      let min_wait = nz () in let max_wait = nz () in let grace = nz () in
+      let a = nz () in let b = nz () in let c = nz () in let d = nz () in
+      let frag = nb () in let ty = nz () in let ts = nz () in let last = nz () in let ms = nz () in
+      jres (function NoVerdict -> "[\"none\"]" | BadTps -> "[\"bad\"]"
+                   | Up (tps, num, den, mins, days) -> "[\"up\"," ^ String.concat "," (List.map ji [tps; num; den; mins; days]) ^ "]")
+        (uptime { min_wait; max_wait; grace; min_sc = (a, b); max_sc = (c, d) } frag ty ts last ms)
+  | "fp_mtu" ->
+      let n = ni () in
+      let db = if n < 0 then None else Some (List.init n (fun _ -> let m_line = nz () in let m_mtu = nz () in { m_line; m_mtu })) in
+      let frag = nb () in let ty = nz () in let ver = nz () in let mss = nz () in
+      jres (fun (m, r) -> "[" ^ ji m ^ "," ^ jopt (fun r -> ji r.m_line) r ^ "]") (fp_mtu db frag ty ver mss)
+  | "imp_mtu" ->
+      let m = nz () in let ver = nz () in
+      let opts = nlist (fun () -> let k = ni () in let v = nz () in if k = 0 then OMss v else OOther v) in
+      jl (function OMss v -> "[0," ^ ji v ^ "]" | OOther v -> "[1," ^ ji v ^ "]") (imp_mtu m ver opts)
   | _ -> failwith ("unknown command " ^ cmd)
 
 let () =
